@@ -18,11 +18,11 @@ VARIABLES g, n
 SecH == {"s1", "s2", "s3"}
 PropH == {"p1", "p2", "p3", "p4"}
 SecDefects == {"noname", "notype", "emptyname", "emptytype", "dupname", "unknown-child", "attr", "case-tag", "case-child", "repeat-name",
-               "badcard", "badid", "wrong-nesting", "text-in-element", "noname-dupchild"}
+               "badcard", "badid", "numid", "wrong-nesting", "text-in-element", "noname-dupchild"}
 PropDefects == {"noname", "badvalue", "unknown-child", "attr", "case-tag", "repeat-value", "dupname", "badcard", "badid", "wrong-nesting",
-                "emptyvalue", "baddtype", "noname-badvalue", "blanklist", "spacedlist"}
-DocDefects == {"unknown-child", "baddate", "attr", "prop-at-root", "badid"}
-Corruptions == {"truncate", "dropclose", "garbage", "wrongroot", "wrongversion", "noversion", "empty"}
+                "emptyvalue", "baddtype", "noname-badvalue", "blanklist", "spacedlist", "numid"}
+DocDefects == {"unknown-child", "baddate", "attr", "prop-at-root", "badid", "numid"}      \* numid: an id that is a number, not text
+Corruptions == {"truncate", "dropclose", "garbage", "wrongroot", "caseroot", "wrongversion", "noversion", "empty"}
 Init == g = [x \in SecH \cup PropH \cup {"d1", "file"} |-> "ok"] /\ n = 0
 Next == /\ n < MaxDefects /\ n' = n + 1
         \* a duplicate name is planted on the later sibling only (s2 after s1, p2 after p1)
